@@ -23,17 +23,17 @@ def sh(cmd, **kw):
 def main():
     kf = json.load(open(os.path.join(VERIF, "known_findings.json")))["findings"]
     todo = [f for f in kf if f["status"] == "fixed" and (not sys.argv[1:] or f["commit"] in sys.argv[1:])]
+    done = {"9f6e9a8", "69ed09f"} if not sys.argv[1:] else set()
+    todo = [f for f in todo if f["commit"] not in done]
     results = {}
     for f in todo:
         c = f["commit"]
         assert sh(f"git -C {REPO} status --porcelain").stdout.strip() == "", "repo not clean"
         patch = sh(f"git -C {REPO} show {c} --format= ").stdout
-        p = subprocess.run(f"git -C {REPO} apply -R --3way -", shell=True, input=patch, capture_output=True, text=True)
-        if p.returncode != 0:
-            p = subprocess.run(f"git -C {REPO} apply -R -", shell=True, input=patch, capture_output=True, text=True)
+        p = subprocess.run(f"git -C {REPO} apply -R -", shell=True, input=patch, capture_output=True, text=True)
         if p.returncode != 0:
             results[c] = {"applied": False, "err": p.stderr[-300:]}
-            sh(f"git -C {REPO} checkout -- . && git -C {REPO} reset -q")
+            sh(f"git -C {REPO} reset -q --hard HEAD")
             print(c, "could not re-introduce:", p.stderr[-200:])
             continue
         res = {}
@@ -41,7 +41,7 @@ def main():
             r = sh(f"./check {pid} --tier quick", cwd=VERIF)
             v = [l for l in r.stdout.splitlines() if l.startswith("VIOLATION")]
             res[pid] = {"exit": r.returncode, "violations": len(v), "first": v[:1]}
-        sh(f"git -C {REPO} reset -q && git -C {REPO} checkout -- .")
+        sh(f"git -C {REPO} reset -q --hard HEAD")
         results[c] = {"applied": True, "what": f["what"][:80], "checks": res}
         print(c, f["property"], {k: (v["exit"], v["violations"]) for k, v in res.items()}, flush=True)
     json.dump(results, open(os.path.join(VERIF, ".work", "selfmut.json"), "w"), indent=1)
